@@ -31,7 +31,7 @@ def validate(traces: list[dict], wd: Path, shards: int = 16, module: str = "Cfdp
         files.append(f)
 
     def one(f: Path):
-        r = run_tlc(module, module + ".cfg", wd=wd, workers=1, env={"TRACE_FILE": str(f)}, timeout=timeout, heap="3g", stack="16m")
+        r = run_tlc(module, module + ".cfg", wd=wd, workers=1, env={"TRACE_FILE": str(f)}, timeout=timeout, heap="2g", stack="16m")
         return r
 
     with ThreadPoolExecutor(max_workers=shards) as ex:
